@@ -168,6 +168,10 @@ def cos(I, x):
     return _trig_terms(I, x)[1]
 
 
+BM.EXTERNAL.setdefault("math.cos", lambda I: BuiltinFn("math.cos", lambda x: cos(I, x)))
+BM.EXTERNAL.setdefault("math.sin", lambda I: BuiltinFn("math.sin", lambda x: sin(I, x)))
+
+
 # ------------------------------------------------------------------------------------------------
 # geometries
 
@@ -320,8 +324,9 @@ def g_intersection(I, a, b):
     form = forms[eng.choose(len(forms), "kind of the intersection")]
     both_poly = da == 2 and db == 2
     onbd = lambda x, y: sv_or(gbd(a, x, y), gbd(b, x, y))
+    w.__dict__.setdefault("intersections", []).append((a, b, form))
     if form == "empty":
-        return make_geom(I, "GeometryCollection" if False else "Polygon", mem=mem, empty=True, tag="inter")
+        return make_geom(I, "Polygon", mem=mem, empty=True, tag="inter")
     if not form.startswith("GC"):
         g = make_geom(I, form, mem=mem, empty=False, tag="inter")
         if both_poly and DIM[form] < 2:
@@ -341,6 +346,10 @@ def g_intersection(I, a, b):
     lo = make_geom(I, "Point", mem=lambda x, y: sv_and(mem(x, y), lowp(x, y)), empty=False, tag=tag + ".pt")
     if both_poly:
         w.add_fact(lambda x, y: sv_implies(mem(x, y), onbd(x, y)))
+    elif da == 2 or db == 2:
+        # a line meets a closed polygon in an isolated point only on the polygon's boundary
+        pg = a if da == 2 else b
+        w.add_fact(lambda x, y: sv_implies(sv_and(mem(x, y), lowp(x, y)), gbd(pg, x, y)))
     return make_geom(I, "GeometryCollection", mem=mem, empty=False, tag=tag, parts=[lo, hi], area=0.0, length=hi.fields["length"])
 
 
@@ -482,6 +491,7 @@ def g_contains(I, a, b, strict):
     else:
         eng.assume(sv_or(r, sv_and(gmem(b, cx, cy), sv_not(gmem(a, cx, cy)))))
     w.add_point(cx, cy)
+    w.__dict__.setdefault("contains_log", []).append((a, b, r, (cx, cy)))
     return r
 
 
@@ -494,6 +504,7 @@ def g_intersects(I, a, b):
     sx, sy = eng.fresh_real("shared.x"), eng.fresh_real("shared.y")
     eng.assume(sv_implies(r, sv_and(gmem(a, sx, sy), gmem(b, sx, sy))))
     w.add_point(sx, sy)
+    a.fields.setdefault("_intersects_log", []).append((b, r, (sx, sy)))
     return r
 
 
